@@ -516,8 +516,13 @@ impl Rasn {
                 _ => TokenStream::new(),
             }
         } else {
+            // A constrained reference may refer to an INTEGER type: its value range
+            // must not be cut off at zero like a size
             self.format_range_annotations(
-                matches!(member.ty(), ASN1Type::Integer(_)),
+                matches!(
+                    member.ty(),
+                    ASN1Type::Integer(_) | ASN1Type::ElsewhereDeclaredType(_)
+                ),
                 &all_constraints,
             )?
         };
